@@ -139,9 +139,10 @@ def kill_session(sid):
     strays = 0
     for _ in range(20):
         left = []
-        for p in psutil.process_iter(['pid']):
+        for p in psutil.process_iter(['pid', 'status']):
             try:
-                if p.pid != sid and os.getsid(p.pid) == sid:
+                if p.pid != sid and os.getsid(p.pid) == sid and \
+                        p.info['status'] != psutil.STATUS_ZOMBIE:
                     left.append(p.pid)
             except (ProcessLookupError, PermissionError, psutil.Error):
                 pass
